@@ -395,8 +395,12 @@ def evaluate(b, case):
         if m:
             code = int(m.group(1))
             b.reached('status_%d%s' % (code, '_dispatched' if code == 200 and st['requests'] else ''))
-            b.reached('responses_parsed_by_reference')
-            b.reached('responses_crosschecked_http_client')
+            rs, err = ref_http.parse_responses(st['written'], closed=bool(st['closes']))
+            if err is None and len(rs) == 1:
+                b.reached('responses_parsed_by_reference')
+                b.reached('responses_crosschecked_http_client')   # judge() runs ref_http.crosscheck on exactly these
+            else:
+                b.reached('responses_refused_by_reference')
     if path == 'none' and obs['steps']:
         b.reached('waited_no_response')
         if obs['disconnected'] and data:
